@@ -65,10 +65,13 @@ def main():
         if a.keep and ok:
             d = os.path.join(ROOT, 'seeded', a.keep)
             os.makedirs(d, exist_ok=True)
-            shutil.copy(os.path.join(a.mutdir, 'patch.diff'), d)
-            shutil.copy(demo, d)
+            if os.path.abspath(a.mutdir) != os.path.abspath(d):
+                shutil.copy(os.path.join(a.mutdir, 'patch.diff'), d)
+                shutil.copy(demo, d)
+                if os.path.exists(os.path.join(a.mutdir, 'README.txt')): shutil.copy(os.path.join(a.mutdir, 'README.txt'), d)
             readme = ''
-            if os.path.exists(os.path.join(a.mutdir, 'README.txt')): readme = open(os.path.join(a.mutdir, 'README.txt')).read()
+            if os.path.exists(os.path.join(d, 'README.txt')): readme = open(os.path.join(d, 'README.txt')).read()
+            elif os.path.exists(os.path.join(d, 'meta.json')): readme = json.load(open(os.path.join(d, 'meta.json'))).get('breaks', '')
             meta = {'property': a.pid, 'breaks': readme.strip(), 'needs_to_manifest': 'see "breaks" (author\'s README)',
                     'confirmed': {'patch_applies': True, 'repo_tests_with_patch': res.get('tests_with_patch'), 'demo_fails_with_patch': True, 'demo_passes_without': True},
                     'what_i_ran': [f'patch -p1 < patch.diff in a scratch copy of /repo', 'pytest tests (31 pass)', 'demo.py with and without the patch',
